@@ -32,6 +32,9 @@ pub fn run(ctx: &Ctx) -> Report {
         "a KB-JWT whose aud is an array containing the expected audience is legitimate (RFC 7519) and not generated as an attack".into(),
         "reordering counts as an attack only when the order actually changed".into(),
     ];
+    if ctx.only_case.is_none() && ctx.shard.is_none() && std::env::var("VERIF_LEG").is_err() {
+        crate::mon::history::leg(ctx, &mut rep, "C04");
+    }
     rep.floor("control.accepted", 100);
     rep.floor("attack.kb-char.rejected", 10_000);
     for a in ["kb-removed", "resigned-other-holder-key", "typ", "nonce", "aud", "verifier-expects-other", "sd_hash", "replay-more", "replay-fewer", "replay-other-credential", "no-cnf", "one-of-aud-nonce"] {
